@@ -78,6 +78,7 @@ type Run struct {
 	curCase      int
 	verbose      bool
 	extra        map[string]any
+	replaysWritten int
 }
 
 // Thorough reports whether the tier is "thorough".
@@ -302,7 +303,8 @@ func (r *Run) ViolationAt(stream string, caseIdx int, sig, what string, witness 
 			perSig++
 		}
 	}
-	if perSig < 3 && len(r.violations) < 25 {
+	if perSig < 3 && r.replaysWritten < 60 {
+		r.replaysWritten++
 		dir := filepath.Join(Root(), "replays", r.ID)
 		os.MkdirAll(dir, 0o755)
 		name := fmt.Sprintf("%s-seed%d-%s-%d-%s.json", r.Tier, r.Seed, stream, caseIdx, sanitize(sig))
@@ -435,7 +437,11 @@ func (r *Run) Finish() int {
 			r.ID, len(r.digests), r.MinNontrivial, missing)
 		code = 2
 	} else {
-		fmt.Printf("HELD property=%s on everything explored\n", r.ID)
+		if len(r.knownHits) > 0 {
+			fmt.Printf("HELD property=%s on everything explored, apart from the %d known finding(s) listed above\n", r.ID, len(r.knownHits))
+		} else {
+			fmt.Printf("HELD property=%s on everything explored\n", r.ID)
+		}
 	}
 	return code
 }
